@@ -625,6 +625,9 @@ static int sys_cmd (char *line)
       bp[strlen (bp) - 1] = 0;	/* "<bindir>/" */
       strncat (bp, d, sizeof bp - strlen (bp) - 1);
       rm_rf (bp);
+      /* and the markers with which an earlier case of this name made the master refuse saves */
+      snprintf (bp, sizeof bp, "c17/nosave/%s", d);
+      rm_rf (bp);
       cleaned = 1;
       return 1;
     }
